@@ -328,7 +328,7 @@ class Spec:
     lean_targets = ["Mhd.Props.C01", "drv_mem"]
     required_theorems = ["Mhd.C01.step_wf", "Mhd.C01.run_wf", "Mhd.C01.windows_inside_arena", "Mhd.C01.recv_writes_inside",
                          "Mhd.C01.reqline_parser_no_fault", "Mhd.C01.field_parser_no_fault", "Mhd.C01.pool_blocks_wf",
-                         "Mhd.C01.connread_no_fault", "Mhd.C01.connread_parser_view_inside", "Mhd.C01.connread_reads_below_fill", "Mhd.C01.body_decoder_within_window",
+                         "Mhd.C01.connread_no_fault", "Mhd.C01.connread_parser_view_inside", "Mhd.C01.connread_one_arena", "Mhd.C01.connread_reads_below_fill", "Mhd.C01.body_decoder_within_window",
                          "Mhd.C01.internal_lookups_header_kind_only",
                          "Mhd.C01.connread_full_buffer_is_error", "Mhd.C01.grow_stuck_without_guard"]
     trusted_base = ["Lean 4 kernel; propext/Classical.choice/Quot.sound only",
@@ -338,7 +338,8 @@ class Spec:
                     "gcc ASan/UBSan as the observer of C-level memory errors"]
     assumptions = ["request line, header section, body (identity / chunked), footers and keep-alive reset: composition proved (connread_no_fault: parser "
                    "preconditions established, every buffer operation accepted) for every framing / keep-alive decision and every take pattern; "
-                   "cookie parsing, 100-continue, early replies and the reply's write buffer are outside the composed model",
+                   "handler outcomes (early reply, MHD_NO at any call, 100-continue) are parameters of the composed model; "
+                   "cookie parsing and the reply's write buffer are outside the composed model",
                    "C-level UB that is not an out-of-range index (aliasing, alignment) is only observed by the sanitizers",
                    "the daemon runs in external select/epoll mode in this check; threaded modes are C18"]
 
